@@ -153,7 +153,7 @@ func init() {
 	}
 	register(&Prop{
 		ID: "C04sem",
-		Rule: "validation of the trusted JavaScript semantics: generated single-template files of the command fragment of Props/C04d (raw text with quotes, backslashes and HTML-special bytes; prints of int / string / bool expressions with no directive, |id, |noAutoescape, |escapeHtml under the three autoescape settings; let (value and content blocks) with fresh and SHADOWING names; if/elseif/else; foreach with and without ifempty over list parameters and map fields, for over range(…) with one to three arguments (positive literal step), switch on ints / strings with labels of both types, loop variables shadowing parameters; " +
+		Rule: "validation of the trusted JavaScript semantics: generated single-template files of the command fragment of Props/C04d (raw text with quotes, backslashes and HTML-special bytes; prints of int / string / bool expressions with no directive, |id, |noAutoescape, |escapeHtml under the three autoescape settings; let (value and content blocks) with fresh and SHADOWING names; if/elseif/else; foreach with and without ifempty over list parameters and map fields, for over range(…) with one to three arguments (positive literal step), switch on ints / strings with labels of both types, loop variables shadowing parameters, index / isFirst / isLast of the enclosing loops' variables; " +
 			"expressions: + - * % on small ints, string concatenation, comparisons, same-type equality, and/or/not, ?:, elvis on a nullable, .k / ?.k / [i] accesses, length, isNonnull, floor/ceiling/round/min/max) x 3 data sets (one of them with missing map fields, null and undefined values, empty lists: TypeErrors and ifempty branches); " +
 			"soyjs.Write's statement text and its run in otto versus renderStmts(toCmds) and its run under Spec/JsStmt.execStmts in the driver, from the same data: text byte for byte, and the completion (output string / TypeError) wherever the semantics is not `unspec`; plus hand-written cases; non-trivial = the engine returns a non-empty string or throws",
 		Gen:         genC04sem,
@@ -202,6 +202,7 @@ type semGen struct {
 	used  map[string]bool
 	fresh int
 	loops int // enclosing loops
+	loopVars []string // their variables, innermost last
 }
 
 var semParams = map[string]semTy{"n": semI, "k": semI, "s": semS, "t": semS, "b": semB, "li": semLI, "ls": semLS}
@@ -252,6 +253,9 @@ func (g *semGen) mapRef(path string) string {
 }
 
 func (g *semGen) intE(d int) string {
+	if len(g.loopVars) > 0 && g.r.Intn(6) == 0 {
+		return "index($" + g.loopVars[g.r.Intn(len(g.loopVars))] + ")"
+	}
 	if d <= 0 || g.r.Intn(3) == 0 {
 		switch g.r.Intn(6) {
 		case 0, 1:
@@ -333,6 +337,9 @@ func (g *semGen) strE(d int) string {
 }
 
 func (g *semGen) boolE(d int) string {
+	if len(g.loopVars) > 0 && g.r.Intn(4) == 0 {
+		return g.r.Pick([]string{"isFirst", "isLast"}) + "($" + g.loopVars[g.r.Intn(len(g.loopVars))] + ")"
+	}
 	if d <= 0 || g.r.Intn(4) == 0 {
 		switch g.r.Intn(4) {
 		case 0:
@@ -497,7 +504,9 @@ func (g *semGen) cmd(d int) string {
 		mark := len(g.vars)
 		g.vars = append(g.vars, semVar{name, semI})
 		g.loops++
+		g.loopVars = append(g.loopVars, name)
 		body := g.block(d - 1)
+		g.loopVars = g.loopVars[:len(g.loopVars)-1]
 		g.loops--
 		g.vars = g.vars[:mark]
 		return "{for $" + name + " in range(" + args + ")}" + body + "{/for}"
@@ -524,7 +533,9 @@ func (g *semGen) cmd(d int) string {
 		mark := len(g.vars)
 		g.vars = append(g.vars, semVar{name, et})
 		g.loops++
+		g.loopVars = append(g.loopVars, name)
 		body := g.block(d - 1)
+		g.loopVars = g.loopVars[:len(g.loopVars)-1]
 		g.loops--
 		g.vars = g.vars[:mark]
 		s := "{foreach $" + name + " in " + list + "}" + body
@@ -622,6 +633,9 @@ var semHands = []struct{ src, data string }{
 	{"{namespace sem}\n/** @param n\n @param s */\n{template .t}\n{switch $n}{case '7'}str{case 7, 8}int{default}d{/switch}{switch $s}{case 7}int{case null}null{case 'a', '7'}s{/switch}|\n{/template}\n", "(m (6e (s 37)) (73 (n)))"},
 	// content blocks: nested, shadowing, printed with and without escaping
 	{"{namespace sem}\n/** @param n */\n{template .t}\na{let $x}<{$n}{let $n}in&{/let}{$n}>{/let}b{$x}{$x|noAutoescape}{$n}\n{/template}\n", "(m (6e (i 7)))"},
+	// the loop functions: range loops count iterations (ed89aa1), nested loops over the same name, a let shadowing the variable
+	{"{namespace sem}\n/** @param li */\n{template .t}\n{for $i in range(1, 8, 3)}{index($i)}{isFirst($i) ? 'F' : ''}{isLast($i) ? 'L' : ''}{$i},{/for}|{foreach $x in $li}{index($x)}{isFirst($x)}{isLast($x)}{foreach $x in $li}{index($x)}{isLast($x) ? 'l' : '-'}{/foreach}{let $x: 9 /}{$x}{isLast($x)};{/foreach}\n{/template}\n", "(m (6c69 (l (i 5) (i 6) (i 7))))"},
+	{"{namespace sem}\n/** @param n */\n{template .t}\n{for $i in range($n)}{for $j in range(2)}{index($i)}{index($j)}{isLast($i)}{isLast($j)} {/for}{/for}\n{/template}\n", "(m (6e (i 2)))"},
 	// raw text with every escape class
 	{"{namespace sem}\n{template .t}\na'b\"c\\d<e>&f=g{sp}{nil}{\\n}{\\t}{lb}{rb}é \n{/template}\n", "(m)"},
 }
